@@ -297,7 +297,68 @@ func (c Case) run(timeout time.Duration) string {
 		}
 		toks = append(toks, tok)
 	}
+	// order independence: what an Editor reports does not depend on which related Editors were
+	// observed before it. The history is executed again without any intermediate observation and
+	// the pool is then observed last entry first; every entry must report what it reports when the
+	// pool of the run above is observed first entry first.
+	if len(toks) == len(c.Steps)+1 && len(c.Steps) > 0 && !c.orderIndependent(pool, timeout) {
+		toks[len(toks)-1] = "ND" + toks[len(toks)-1]
+	}
 	return strings.Join(toks, " ")
+}
+
+// orderIndependent re-executes the case silently and compares reverse-order observations with the
+// forward-order observations of pool; it reports true when they agree (or when a step did not
+// return normally, in which case nothing is compared).
+func (c Case) orderIndependent(pool []rosed.Editor, timeout time.Duration) bool {
+	fwd := make([]string, len(pool))
+	for i, e := range pool {
+		fwd[i] = obsTok(e)
+	}
+	again := make([]rosed.Editor, 0, len(pool))
+	for _, p := range c.Pool {
+		again = append(again, rosed.Edit(p))
+	}
+	for _, s := range c.Steps {
+		if s.Recv >= len(again) {
+			return true
+		}
+		out := runStepSilent(s, again[s.Recv], timeout)
+		if out.panic {
+			return true
+		}
+		again = append(again, out.ed)
+	}
+	if len(again) != len(pool) {
+		return true
+	}
+	for i := len(again) - 1; i >= 0; i-- {
+		if obsTok(again[i]) != fwd[i] {
+			return false
+		}
+	}
+	return true
+}
+
+// runStepSilent applies op to ed under recover and a watchdog without observing the result.
+func runStepSilent(o Op, ed rosed.Editor, timeout time.Duration) (res stepOut) {
+	ch := make(chan stepOut, 1)
+	go func() {
+		var out stepOut
+		defer func() {
+			if r := recover(); r != nil {
+				out = stepOut{ed: ed, panic: true}
+			}
+			ch <- out
+		}()
+		out = stepOut{ed: o.apply(ed)}
+	}()
+	select {
+	case res = <-ch:
+		return res
+	case <-time.After(timeout):
+		return stepOut{ed: ed, panic: true}
+	}
 }
 
 func must(err error) {
